@@ -81,8 +81,11 @@ pub fn c01_histories(out: &str, thorough: bool, seed: u64) {
         ShapeSpec::Trimer(0.1, 180., 5.),
         ShapeSpec::Trimer(0.3, 150., 2.),
         ShapeSpec::Trimer(0.2, 120., 1.),
+        // polygons with many sides (shallow corner-into-edge contacts)
+        ShapeSpec::Polygon(33),
+        ShapeSpec::Polygon(24),
     ];
-    let count = if thorough { 462 } else { 77 };
+    let count = if thorough { 462 } else { 91 };
     let steps = if thorough { 4000 } else { 1200 };
     let mut histories = 0usize;
     let mut scored = 0usize;
